@@ -927,7 +927,7 @@ class Vector():
 
 	def _unary_operation(self, op_func, op_name: str):
 		"""Helper function to handle unary operations on each element."""
-		result_values = tuple(op_func(x) for x in self)
+		result_values = tuple(None if x is None else op_func(x) for x in self)
 		# Infer dtype from result (e.g., -True is the int -1, abs(int) stays int)
 		return Vector(
 			result_values,
